@@ -8,7 +8,9 @@ SPEC = dict(
         "internal/cluster/security/auth.go",
         "internal/cluster/security/edgesync_auth.go",
     ],
-    harnesses=[dict(name="c26")],
+    hooks={"internal/cluster": "go/hooks/cluster_c26"},
+    harnesses=[dict(name="c26"),
+               dict(name="c26h", tags="verif duckdb_arrow", driver="drive_c26")],
     trusted_base=[
         "HMAC-SHA256 unforgeability is outside the model: a replay is a byte-for-byte copy carrying the original valid MAC (Msg.macOk)",
         "sync.Mutex makes each Track call one atomic step (interleavings of concurrent requests reduce to sequences)",
